@@ -127,10 +127,13 @@ def true_bounds(P):
 
 
 def _contains(lo, hi, x, tol=0.0):
-    x = x % (2 * math.pi)
-    if lo <= hi:
-        return lo - tol <= x <= hi + tol
-    return x >= lo - tol or x <= hi + tol
+    """x inside the arc of longitudes running eastwards from lo to hi (all modulo 2*pi), with tolerance."""
+    two_pi = 2 * math.pi
+    if hi - lo >= two_pi - 1e-12:
+        return True  # the full circle
+    w = (hi - lo) % two_pi
+    d = (x - lo) % two_pi
+    return d <= w + tol or d >= two_pi - tol
 
 
 def _width(lo, hi):
